@@ -189,13 +189,16 @@ def contract_job(j):
                 items.append(it)
             items.append({"begin": 5, "end": 6, "name": "STOP", "source": 0})
             return items
+        # names that are suffixes / prefixes of one another, a contract without asm; every contract has its own code and marker
         doc = {"version": "0.8.19+commit", "contracts": {
-            "a.sol:Alpha": {"asm": {".code": code(["PUSH 0", "DUP2", "ADD", "PUSH 1", "MUL"]),
-                                     ".data": {"0": {".auxdata": "aa", ".code": code(["PUSH 0", "DUP2", "ADD"])}}}},
-            "b.sol:Beta": {"asm": {".code": code(["DUP1", "PUSH 0", "ADD", "POP"]), ".data": {}}},
-            "c.sol:Iface": {"asm": None},
+            "a.sol:Token": {"asm": {".code": code(["PUSH 0", "DUP2", "ADD", "PUSH 1", "MUL", "PUSH a1", "POP"]),
+                                     ".data": {"0": {".auxdata": "aa", ".code": code(["PUSH 0", "DUP2", "ADD", "PUSH a2", "POP"])}}}},
+            "b.sol:MyToken": {"asm": {".code": code(["DUP1", "PUSH 0", "ADD", "POP", "PUSH b1", "POP"]), ".data": {"0": {".auxdata": "bb", ".code": code(["PUSH 1", "PUSH 0", "ADD", "PUSH b2", "POP"])}}}},
+            "c.sol:TokenSale": {"asm": {".code": code(["PUSH 0", "PUSH 0", "ADD", "PUSH c1", "POP"]), ".data": {}}},
+            "d.sol:Iface": {"asm": None},
         }}
-        path = os.path.join(workdir, "three.json_solc")
+        short = {n.split(":")[-1]: n for n in doc["contracts"]}
+        path = os.path.join(workdir, "four.json_solc")
         with open(path, "w") as f:
             json.dump(doc, f)
         p.input_file = path
@@ -204,40 +207,52 @@ def contract_job(j):
         p.blocks_file = os.path.join(workdir, "b.csv")
         p.log_file = os.path.join(workdir, "l.log")
         p.generate_log = False
-        for sel in (None, "Alpha", "Beta", "Iface", "Missing"):
+        res_all = None
+        for sel in (None, "Token", "MyToken", "TokenSale", "Iface", "Missing", "oken", "Sale", "Tok"):
             out["cases"] += 1
             p.contract = sel
             p.optimized_file = os.path.join(workdir, "out_%s.json" % sel)
+            must_fail = sel is not None and (sel not in short or doc["contracts"][short[sel]]["asm"] is None)
             try:
                 with gasol.Silence():
                     gasol_asm.optimize_asm_in_asm_format(p)
             except ValueError as e:
-                if sel in ("Missing", "Iface"):
+                if must_fail:
                     continue
                 out["bad"].append({"key": "contract:%s:raises" % sel, "what": "selection %s raises %s" % (sel, e)})
                 continue
             except Exception as e:
                 out["bad"].append({"key": "contract:%s:raises" % sel, "what": "selection %s raises %r" % (sel, e)})
                 continue
-            if sel == "Missing":
-                out["bad"].append({"key": "contract:Missing:accepted", "what": "a contract name that does not exist is accepted"})
+            if must_fail:
+                out["bad"].append({"key": "contract:%s:accepted" % sel, "what": "the selection %r names no contract with code, yet the run succeeds and writes an output" % sel})
                 continue
             with open(p.optimized_file) as f:
                 res = json.load(f)
             if sel is None:
+                res_all = res
                 for cname in doc["contracts"]:
                     if cname not in res.get("contracts", {}):
                         out["bad"].append({"key": "contract:all:lost:" + cname, "what": "contract %s missing from the output" % cname})
-                if res["contracts"].get("c.sol:Iface", {}).get("asm", "x") is not None and "asm" in res["contracts"].get("c.sol:Iface", {}):
+                if res["contracts"].get("d.sol:Iface", {}).get("asm", "x") is not None and "asm" in res["contracts"].get("d.sol:Iface", {}):
                     out["bad"].append({"key": "contract:all:iface", "what": "contract without asm changed"})
             else:
-                # the output is the selected contract's asm json alone: no other contract's code may appear in it
-                blob = json.dumps(res)
-                other = "b.sol:Beta" if sel == "Alpha" else "a.sol:Alpha"
+                # the output is the selected contract's asm alone: it must be exactly what that contract becomes when the
+                # whole document is optimized, and contain nobody else's marker constants
+                want = (res_all or {}).get("contracts", {}).get(short[sel], {}).get("asm")
                 if "contracts" in res:
                     for cname, c in res["contracts"].items():
-                        if not cname.endswith(sel) and c != doc["contracts"][cname]:
+                        if cname != short[sel] and c != doc["contracts"][cname]:
                             out["bad"].append({"key": "contract:%s:changed:%s" % (sel, cname), "what": "unselected contract %s changed" % cname})
+                    got = res["contracts"].get(short[sel], {}).get("asm")
+                else:
+                    got = res
+                if want is not None and got != want:
+                    blob = json.dumps(got)
+                    foreign = [m for m in ("a1", "a2", "b1", "b2", "c1") if '"%s"' % m in blob.lower() and m[0] != short[sel][0]]
+                    out["bad"].append({"key": "contract:%s:wrong-code" % sel,
+                                       "what": "with only %s selected the emitted code is not that contract's optimized code%s" % (
+                                           sel, " (it carries the constants %s of another contract)" % foreign if foreign else "")})
     finally:
         shutil.rmtree(workdir, ignore_errors=True)
     return out
